@@ -893,6 +893,11 @@ def nested_grid(tier):
     n("depth 3 mixed", lambda np, x: x * dfw(lambda y: y * egrad(lambda z: x * y * z * z)(y), x), lambda np, x: x * (6 * x * x * x), [R(2)])
     n("depth 3 fwd", lambda np, x: x * dfw(lambda y: y * dfw(lambda z: x * y * z * z, y), x), lambda np, x: x * (6 * x * x * x), [R(2)])
     n("inner at constant", lambda np, x: x * egrad(lambda y: x * y * y)(onp.array([3.0, 5.0])), lambda np, x: x * 2 * x * onp.array([3.0, 5.0]), [R(2)])
+    n("inner result independent of ITS variable but built from the outer one (rev)", lambda np, x: x * egrad(lambda y: x * x)(x) + x, lambda np, x: x * 0.0 + x, [R(2)])
+    n("inner result independent of ITS variable but built from the outer one (fwd)", lambda np, x: x * dfw(lambda y: x * x, x) + x, lambda np, x: x * 0.0 + x, [R(2)])
+    n("inner piecewise constant in ITS variable, scaled by the outer one (rev)", lambda np, x: x * egrad(lambda y: x * np.floor(y))(onp.array([2.5, 3.5])) + x, lambda np, x: x * 0.0 + x, [R(2)])
+    n("inner piecewise constant in ITS variable, scaled by the outer one (fwd)", lambda np, x: x * dfw(lambda y: x * np.floor(y), onp.array([2.5, 3.5])) + x, lambda np, x: x * 0.0 + x, [R(2)])
+    n("inner grad of an outer-only scalar", lambda np, x: grad(lambda y: np.sum(x * x))(x) + x, lambda np, x: x * 0.0 + x, [R(2)])
     n("inner ignores outer", lambda np, x: x * egrad(lambda y: y * y)(x), lambda np, x: x * 2 * x, [R(2)])
     n("scalar nested", lambda np, x: x * grad(lambda y: x * y * y)(x), lambda np, x: 2 * x ** 3, [SC])
     n("hvp-like: grad(sum(grad f * v))", lambda np, x: grad(lambda z: np.sum(grad(lambda w: np.sum(w ** 3))(z) * x))(x), lambda np, x: 6 * x * x, [R(2)])
@@ -937,12 +942,14 @@ def index_exprs(shape, tier):
                     out.append((a, b, c))
     # advanced indexing
     n0 = shape[0]
-    adv = [[0, 0, n0 - 1], [n0 - 1, 0], [-1, 0, -1], onp.array([0, 0, 1 % n0]), onp.array([[0, n0 - 1], [n0 - 1, 0]]), onp.array([], dtype=int), [True] + [False] * (n0 - 1),
+    adv = [[1 % n0, (1 % n0) - n0, 0] if n0 > 1 else [0, -1], onp.array([0, -n0]), onp.array([n0 - 1, -1, 0][: max(2, n0)]),  # distinct VALUES, same POSITION (k and k-n)
+           [0, 0, n0 - 1], [n0 - 1, 0], [-1, 0, -1], onp.array([0, 0, 1 % n0]), onp.array([[0, n0 - 1], [n0 - 1, 0]]), onp.array([], dtype=int), [True] + [False] * (n0 - 1),
            onp.array([i % 2 == 0 for i in range(n0)]), onp.array(0), (onp.array([0, 0]),), ([0, 0],)]
     out.extend(adv)
     if nd >= 2:
         n1 = shape[1]
-        out.extend([([0, 1], [1, 1]), ([0, 0, 1], [n1 - 1, n1 - 1, 0]), (onp.array([[0], [1]]), onp.array([0, n1 - 1])), (S_(None), [0, 0]), ([1, 0], S_(None)), ([1, 0, 1], S_(None, None, -1)),
+        out.extend([(onp.array([[0, -n0], [n0 - 1, 0]]),), ([0, -n0], [n1 - 1, -1]), ([0, 0 - n0, 0], [0, 0, -n1]),  # aliasing through mixed signs in 2-D
+                    ([0, 1], [1, 1]), ([0, 0, 1], [n1 - 1, n1 - 1, 0]), (onp.array([[0], [1]]), onp.array([0, n1 - 1])), (S_(None), [0, 0]), ([1, 0], S_(None)), ([1, 0, 1], S_(None, None, -1)),
                     (S_(1, None), [0, -1]), ([0, 1], None, S_(None)), (None, [0, 1]), (Ellipsis, [0, 0]), ([0], Ellipsis), (0, [0, 1, 1]), ([0, 1, 1], 0), ([0, 1], -1),
                     onp.ones(shape[:2], dtype=bool), onp.array([[True, False] * n1][0][:n1] * 1 and [[(i + j) % 2 == 0 for j in range(n1)] for i in range(n0)]),
                     (onp.array([True] + [False] * (n0 - 1)),), (S_(None), onp.array([j % 2 == 0 for j in range(n1)])), (onp.array([True] * n0), 0), (onp.array([i % 2 == 0 for i in range(n0)]), [0] * ((n0 + 1) // 2))])
